@@ -146,6 +146,8 @@ class VClock:
         return 1_700_000_000.0 + self.ns / 1e9
 
     def sleep(self, s):
+        if s < 0:
+            raise ValueError("sleep length must be non-negative")       # like the real time.sleep()
         self.sleeps.append(s)
         self.ns += int(round(s * 1e9))
 
